@@ -271,6 +271,18 @@ func main() {
 		emit("after-refused-handover", []string{g()[:63]}, "2000", 50, 5, 9)
 		emit("after-refused-handover", []string{g()}, "2000", 50, 5, 9)
 	}
+	// an accepted bundle first; then requests that look like it to a careless key (entries fused by a
+	// blank, a comma, nothing; the same text split differently) go through the same service
+	for k := 0; k < 6; k++ {
+		a, b, c := g(), g(), g()
+		emit("bundle", []string{a, b, c}, "1000", 10, 5, 9)
+		failNext = false
+		for _, l := range [][]string{{a + " " + b, c}, {a + " " + b + " " + c}, {a, b + " " + c}, {a + "," + b, c}, {a + b, c}, {"[" + a, b, c + "]"}, {a, b}, {a, b, c, ""}} {
+			failNext = false
+			emit("bundle-look-alike", l, "1000", 10, 5, 9)
+		}
+		emit("bundle", []string{a, b, c}, "1000", 10, 5, 9)
+	}
 	nums := []int64{1, 2, 1<<63 - 1, 0, -1, -2, -1 << 63, 1 << 62}
 	for _, b := range nums {
 		for _, s := range nums {
